@@ -158,8 +158,11 @@ def boolexpr(fn, n, env, inline, depth=0):
             return inline_call(fn, n, fs[0], env, inline, depth)
         return ('atom', term(fn, n, env))
     if c == 'DeclRefExpr':
-        # a local `const bool x = <expr>;` stands for its initialiser (it cannot change afterwards)
         d = fn.decl(n)
+        # a local bool that carries the result (`bool r = false; if(c) r = x; return r;`): its value on this path (see formula())
+        if d.get('kind') == 'var' and d.get('id') in env.get('__bool__', {}):
+            return env['__bool__'][d['id']]
+        # a local `const bool x = <expr>;` stands for its initialiser (it cannot change afterwards)
         if d.get('kind') == 'var' and d.get('id') not in env:
             vd = fn.var_decls().get(d['id'])
             vt = fn.tu.type(vd['t']) if vd else None
@@ -192,14 +195,22 @@ def inline_call(fn, n, callee_fn, env, inline, depth):
 
 def formula(fn, env=None, inline=True, depth=0):
     """Formula of the boolean result of loop-free function `fn`."""
-    env = dict(env or {})
+    env0 = dict(env or {})
+    env0.pop('__bool__', None)
     if depth > 12:
         raise Unsupported('inlining too deep at %s' % fn.skey)
     # path enumeration over the CFG; each block's terminator condition is a boolean expression
     results = []
     count = [0]
 
-    def walk(b, conds, visited):
+    def is_plain_bool(tidx):
+        t = fn.tu.type(tidx)
+        return bool(t) and not t.get('ref') and t.get('ptr') is None and t.get('s', '').strip() == 'bool'
+
+    def walk(b, conds, visited, benv=None):
+        benv = dict(benv or {})
+        env = dict(env0)
+        env['__bool__'] = benv
         count[0] += 1
         if count[0] > MAX_PATHS:
             raise Unsupported('too many paths in %s' % fn.skey)
@@ -208,7 +219,20 @@ def formula(fn, env=None, inline=True, depth=0):
         blk = fn.blocks[b]
         # return statement in this block?
         for e in blk['elems']:
-            if e['k'] == 'stmt' and fn.nodes[e['n']]['cls'] == 'ReturnStmt':
+            if e['k'] != 'stmt' or not e.get('n'):
+                continue
+            eo = fn.nodes[e['n']]
+            if eo['cls'] == 'DeclStmt':
+                # single-exit style: a non-const local bool carries the result along the path
+                for v in eo.get('decls', []):
+                    if is_plain_bool(v['t']) and v.get('init'):
+                        benv[v['id']] = boolexpr(fn, v['init'], env, inline, 0)
+            elif eo['cls'] == 'BinaryOperator' and eo.get('op') == '=':
+                ks = fn.kids(e['n'])
+                lhs = fn.strip_all_casts(ks[0])
+                if fn.nodes[lhs]['cls'] == 'DeclRefExpr' and (fn.decl(lhs) or {}).get('kind') == 'var' and fn.decl(lhs)['id'] in benv:
+                    benv[fn.decl(lhs)['id']] = boolexpr(fn, ks[1], env, inline, 0)
+            if fn.nodes[e['n']]['cls'] == 'ReturnStmt':
                 ks = fn.kids(e['n'])
                 if not ks:
                     raise Unsupported('void return in %s' % fn.skey)
@@ -223,17 +247,17 @@ def formula(fn, env=None, inline=True, depth=0):
             # short-circuit operators are branches on their left operand (succ[0] = operand true)
             cnd = boolexpr(fn, blk['cond'], env, inline, 0)
             if succ[0] is not None:
-                walk(succ[0], conds + [cnd], visited | {b})
+                walk(succ[0], conds + [cnd], visited | {b}, benv)
             if succ[1] is not None:
-                walk(succ[1], conds + [('not', cnd)], visited | {b})
+                walk(succ[1], conds + [('not', cnd)], visited | {b}, benv)
         elif len(succ) == 2 and tc == 'CXXBindTemporaryExpr':
             # conditional destruction of a temporary: both edges rejoin, neither constrains the result
             for s_ in succ:
                 if s_ is not None:
-                    walk(s_, conds, visited | {b})
+                    walk(s_, conds, visited | {b}, benv)
         elif len(succ) == 1:
             if succ[0] is not None:
-                walk(succ[0], conds, visited | {b})
+                walk(succ[0], conds, visited | {b}, benv)
         elif len(succ) == 0:
             return
         else:
